@@ -30,3 +30,4 @@ def run(ctx):
     n += dmlrules.sib_matrix(ctx, "M2.REFERENCE-COMPLETE", {"insert": REQ})
     ctx.floor("matrix_cells", n, 40)
     dmlrules.row_count_origin(ctx, "M3.ROW-COUNT-ORIGIN")
+    dmlrules.root_writeback(ctx, "M4.ROOT-WRITEBACK")
